@@ -131,6 +131,12 @@ def main():
         if inv not in r["violated"]:
             failures.append(f"{neg} must violate {inv}")
         print(f"  PathCore     {neg} -> violated {r['violated']}")
+    from .checks.purity import SOLVER_OBJECT_NEG
+    for neg, inv in SOLVER_OBJECT_NEG:
+        r = tlc.run("SolverObject", neg, timeout=300)
+        if inv not in r["violated"]:
+            failures.append(f"{neg} must violate {inv}")
+        print(f"  SolverObject {neg} -> violated {r['violated']}")
     for model, inv in (("ProxNewton", "CertSound"), ("AndersonCD", "Feasible"), ("GroupBCD", "HistFaithful"),
                        ("MultiTaskBCD", "CertSound")):
         base_cfg = open(tlc.SPECS + f"/mc/CDCore_{model}_pinned.cfg").read().replace("MaxIter = 2", "MaxIter = 1")
